@@ -109,9 +109,10 @@ theorem rt (f : Fmt) (v : Val) (b p q : Bytes) (h : pack f v = .ok b) (hw : wf f
     | tuple as =>
       simp only [pack] at h
       split at h
-      · rename_i hl
-        cases h
-        simp only [wf] at hw
+      · cases h
+        simp only [wf, Bool.and_eq_true, beq_iff_eq] at hw
+        obtain ⟨hl, hw⟩ := hw
+        rw [List.take_of_length_le (Nat.le_of_eq hl)]
         obtain ⟨h1, h2⟩ := bits_rt hl hw
         generalize hd : p ++ ([UInt8.ofNat (bitsByte as)] ++ q) = d
         have er : readUint d p.length 1 = .ok (bitsByte as) := by
@@ -284,9 +285,9 @@ theorem rt (f : Fmt) (v : Val) (b p q : Bytes) (h : pack f v = .ok b) (hw : wf f
       rw [hd'] at ea
       have e1 : readUint d (p.length + x.length) 2 = .ok key.length :=
         readUint_at (l := p ++ x) (r := key ++ q) (by rw [← hd]; simp) (by simp) hlen
-      have e2 : pySlice d (p.length + x.length + 2) (p.length + x.length + 2 + key.length) = key :=
-        pySlice_at (l := p ++ x ++ beEnc 2 key.length) (r := q) (by rw [← hd]; simp)
-          (by simp [beEnc_length]; omega) (by simp [beEnc_length]; omega)
+      have e2 : sliceChecked d (p.length + x.length + 2) key.length = .ok key :=
+        sliceChecked_at (l := p ++ x ++ beEnc 2 key.length) (r := q) (by rw [← hd]; simp)
+          (by simp [beEnc_length]; omega) rfl
       simp [unpackAt, ea, e1, e2, bind, Except.bind, beEnc_length]
       try omega
     | _ => simp [pack] at h
